@@ -257,6 +257,11 @@ func (p *Prog) FnPos(f *ssa.Function) (string, int) {
 	if f == nil {
 		return "", 0
 	}
+	if !f.Pos().IsValid() && f.Name() == "init" && f.Pkg != nil && strings.HasPrefix(f.Pkg.Pkg.Path(), modPath) {
+		// the synthetic package initialiser (package-level variable initialisation): attributed to
+		// the package directory
+		return shortPkg(f.Pkg.Pkg.Path()) + "/(package initialiser)", 0
+	}
 	return p.Pos(f.Pos())
 }
 
